@@ -546,6 +546,64 @@ def query_systematic():
     return res
 
 
+SPECIAL_CPS = [0, 1, 7, 8, 9, 10, 11, 12, 13, 27, 31, 34, 39, 92, 96, 127, 128, 133, 159, 160, 173, 255, 256, 0x300, 0x5d0, 0x2028, 0x2029, 0x200b, 0x2060,
+               0xd7ff, 0xe000, 0xfeff, 0xfffd, 0xffff, 0x10000, 0x1f600, 0xe0001, 0x10ffff]
+
+
+def literal_systematic():
+    """every 'difficult' code point inside a string literal, a bytes literal, a back-quoted identifier and a quoted alias, spelled raw and
+    as an escape; invalid UTF-8 bytes; every pseudo keyword as a back-quoted identifier in the positions where the bare word is special"""
+    out = []
+    for cp in SPECIAL_CPS:
+        ch = chr(cp).encode("utf-8", "surrogatepass")
+        esc = (b"\\x%02x" % cp) if cp < 0x80 else ((b"\\u%04x" % cp) if cp <= 0xffff else (b"\\U%08x" % cp))
+        raw_ok = cp not in (10, 13, 34, 39, 92, 96)
+        forms = [esc] + ([ch] if raw_ok else [])
+        for f in forms:
+            out.append(("ParseExpr", b'"a' + f + b'b"'))
+            out.append(("ParseExpr", b"'" + f + b"'"))
+            out.append(("ParseQuery", b"SELECT 1 AS `c" + f + b"d` FROM `t" + f + b"`"))
+            out.append(("ParseExpr", b"`x" + f + b"`.y"))
+            if cp < 256:
+                out.append(("ParseExpr", b"b'" + (b"\\x%02x" % cp) + b"'"))
+        out.append(("ParseExpr", b'"""' + (ch if cp not in (34, 92) else esc) + b'"""'))
+    for bad in (b"\xff", b"\xc3", b"\xe2\x82", b"\xed\xa0\x80", b"\xf4\x90\x80\x80", b"\xc0\xaf"):
+        out.append(("ParseExpr", b'"' + bad + b'"'))
+        out.append(("ParseExpr", b"b'" + bad + b"'"))
+        out.append(("ParseQuery", b"SELECT `" + bad + b"` FROM t"))
+    return out
+
+
+PSEUDO_TEMPLATES = [("ParseExpr", "`%s`(x)"), ("ParseQuery", "SELECT AS `%s` 1"), ("ParseExpr", "f(`%s`)"), ("ParseQuery", "SELECT `%s` FROM t"),
+                    ("ParseQuery", "SELECT 1 AS `%s`"), ("ParseExpr", "CAST(x AS `%s`)"), ("ParseQuery", "SELECT * FROM `%s`"), ("ParseQuery", "SELECT * FROM t AS `%s`"),
+                    ("ParseQuery", "SELECT * FROM t `%s`"), ("ParseExpr", "`%s`.x"), ("ParseExpr", "a.`%s`"), ("ParseExpr", "x[`%s`(1)]"),
+                    ("ParseDDL", "CREATE TABLE `%s` (a INT64) PRIMARY KEY (a)"), ("ParseDDL", "CREATE TABLE t (`%s` INT64) PRIMARY KEY (`%s`)"),
+                    ("ParseDML", "INSERT INTO `%s` (a) VALUES (1)"), ("ParseDML", "UPDATE t SET `%s` = 1 WHERE TRUE"), ("ParseQuery", "SELECT * FROM a JOIN b USING (`%s`)"),
+                    ("ParseQuery", "SELECT * FROM t ORDER BY `%s`"), ("ParseExpr", "`%s` + 1"), ("ParseQuery", "SELECT * FROM t TABLESAMPLE `%s` (1 PERCENT)")]
+
+
+def pseudo_keywords():
+    """identifiers the parser compares with IsKeywordLike("...") (taken from parser.go's text: they are inputs, not expectations)"""
+    import re
+    try:
+        src = open("/repo/parser.go").read()
+    except OSError:
+        return []
+    return sorted(set(re.findall(r'IsKeywordLike\("([A-Z_]+)"\)', src)))
+
+
+def pseudo_keyword_cases():
+    out = []
+    for k in pseudo_keywords():
+        for (e, t) in PSEUDO_TEMPLATES:
+            out.append((e, t.replace("%s", k).encode()))
+            out.append((e, t.replace("%s", k.lower()).encode()))
+    return out
+
+
+NUMERIC_POSTFIX = [b"1 .x", b"1 .x.y", b"(1).x", b"1.5 .x", b"0x1F .x", b"1 [0]", b"1e5 .x", b"-1 .x", b"a + 1 .x", b"f(1 .x)", b".5 .x"]
+
+
 def systematic_cases(valid_only=True):
     """seed-independent pairwise enumeration of optional clauses (every pair of column options x every key clause, ...);
     valid_only: leave out combinations Spanner forbids (two key definitions) - they are still inputs for the error-contract checks"""
@@ -572,6 +630,15 @@ def systematic_cases(valid_only=True):
             out.append(("ParseDDL", ("CREATE TABLE t (a INT64%s)%s" % (o, k)).encode()))
             out.append(("ParseDDL", ("ALTER TABLE t ADD COLUMN a INT64%s" % o).encode()))
     out += query_systematic()
+    out += literal_systematic()
+    out += pseudo_keyword_cases()
+    out += [("ParseExpr", x) for x in NUMERIC_POSTFIX]
+    # tables without columns (only constraints / synonyms), and without anything
+    for body in ("", "SYNONYM (s)", "CONSTRAINT c CHECK (TRUE)", "CHECK (TRUE), SYNONYM (s)", "FOREIGN KEY (a) REFERENCES u (b), SYNONYM (s1), SYNONYM (s2)",
+                 "CONSTRAINT fk FOREIGN KEY (a) REFERENCES u (b)"):
+        for tail in ("", " PRIMARY KEY (a)"):
+            out.append(("ParseDDL", ("CREATE TABLE t (%s)%s" % (body, tail)).encode()))
+            out.append(("ParseStatement", ("CREATE TABLE IF NOT EXISTS t (%s)%s" % (body, tail)).encode()))
     return out
 
 
